@@ -192,6 +192,51 @@ func init() {
 		}
 		return sb.String()
 	})
+	// building values through the package's constructors (NewGlyph, MoveTo,
+	// LineTo, CurveTo, ClosePath) and writing them: independent values built
+	// in different goroutines must not share anything
+	add("build", func() string {
+		f := &type1.Font{
+			FontInfo: &type1.FontInfo{FontName: "Built", FontMatrix: [6]float64{0.001, 0, 0, 0.001, 0, 0}},
+			Private:  &type1.PrivateDict{BlueScale: 0.039625, BlueShift: 7, BlueFuzz: 1},
+			Glyphs:   map[string]*type1.Glyph{},
+		}
+		f.NewGlyph(".notdef", 250)
+		for gi := 0; gi < 6; gi++ {
+			g := f.NewGlyph(fmt.Sprintf("g%d", gi), float64(300+gi))
+			g.MoveTo(float64(gi), 10)
+			for i := 0; i < 40; i++ {
+				g.LineTo(float64(10*i+gi), float64(7*i))
+				g.CurveTo(float64(i), float64(i+1), float64(i+2), float64(i+3), float64(i+4+gi), float64(i+5))
+			}
+			g.ClosePath()
+		}
+		// the first glyph is looked at again after the others were built
+		var sb strings.Builder
+		for _, op := range f.Glyphs["g0"].Cmds {
+			fmt.Fprint(&sb, op.Args)
+		}
+		var buf bytes.Buffer
+		err := f.Write(&buf, &type1.WriterOptions{Format: type1.FormatPFA})
+		return fmt.Sprintf("%v|%x|%x", err, sha256.Sum256([]byte(sb.String())), sha256.Sum256(buf.Bytes()))
+	})
+	// reverse look-ups that go through the compatibility expansion (results
+	// assembled from several components)
+	add("names-compat", func() string {
+		var sb strings.Builder
+		for round := 0; round < 20; round++ {
+			for _, r := range []rune{0xFB00, 0xFB01, 0xFB02, 0xFB03, 0xFB04, 0x2126, 0x212B, 0x00C5, 0x01C4, 0x01C5, 0x0132, 0x2160, 0x2163, 0x3300, 0xFDFA, 0x1F600, 0xE000} {
+				n := names.FromUnicode(r)
+				back := names.ToUnicode(n, false)
+				if round == 0 {
+					fmt.Fprintf(&sb, "%04X=%s=%v;", r, n, back)
+				} else if len(back) == 0 {
+					fmt.Fprintf(&sb, "EMPTY %04X %s;", r, n)
+				}
+			}
+		}
+		return sb.String()
+	})
 	// multi-component names build their result piecewise: many look-ups in a
 	// row, and every result is looked at again after later look-ups were
 	// made (a result handed out must not change behind the caller's back)
@@ -556,9 +601,9 @@ func TestRaceChild(t *testing.T) {
 		}
 		if c.FirstUse {
 			// name look-ups and writers first: first-use initialisation
-			items[g][0] = len(workload) - 1 - g%2 // names-multi / names
+			items[g][0] = len(workload) - 1 - g%5 // names-multi / names-compat / build / names / queries
 			if len(items[g]) > 1 {
-				items[g][1] = len(workload) - 5 + g%3 // WritePDF / afm / queries
+				items[g][1] = len(workload) - 7 + g%2 // WritePDF / afm
 			}
 		}
 	}
@@ -624,7 +669,7 @@ func checkRace(c *raceCase) string {
 func TestP2Races(t *testing.T) {
 	rec := ev.New("C18", "races")
 	defer rec.Finish(t)
-	rec.Rule(fmt.Sprintf("concurrency: child processes of the -race build run N = 2..16 goroutines, each executing a drawn sequence of 4-40 workload items (%d kinds: interpreter runs, ReadCMap, type1.Read, Font.Write in 4 formats, WritePDF, Metrics.Write/Read, query methods, name look-ups incl. runs of multi-component names whose results are re-examined after later look-ups), released together; half of the children start the goroutines as the very first action of the process, with name look-ups and writers first (first-use initialisation racing with use). Oracle: no race-detector report and every goroutine's results equal the sequential results. Non-trivial: >= 2 goroutines over >= 2 item kinds (always); distinct by seed.", len(workload)))
+	rec.Rule(fmt.Sprintf("concurrency: child processes of the -race build run N = 2..16 goroutines, each executing a drawn sequence of 4-40 workload items (%d kinds: interpreter runs, ReadCMap, type1.Read, Font.Write in 4 formats, WritePDF, Metrics.Write/Read, query methods, building fonts through the glyph constructors, name look-ups incl. reverse look-ups through the compatibility table and runs of multi-component names whose results are re-examined after later look-ups), released together; half of the children start the goroutines as the very first action of the process, with name look-ups and writers first (first-use initialisation racing with use). Oracle: no race-detector report and every goroutine's results equal the sequential results. Non-trivial: >= 2 goroutines over >= 2 item kinds (always); distinct by seed.", len(workload)))
 	rec.Assume("the harness does not own the Go scheduler: the happens-before race detector reports unsynchronised conflicting accesses that occur in a run; interleavings are not enumerated")
 	ev.SetupRapid(48, 3040)
 	rapid.Check(t, func(t *rapid.T) {
